@@ -141,9 +141,10 @@ def r10(repo, rep):
         # (d) nodes made non-susceptible before the status map is read
         marks = []
         smap = None
+        rec_names = {"initial_recovereds"} | _none_normalised(f.node, "initial_recovereds")
         for i, st in enumerate(f.node.body):
             for n in ast.walk(st):
-                if isinstance(n, ast.For) and _k(n.iter) == "initial_recovereds":
+                if isinstance(n, ast.For) and _k(n.iter) in rec_names:
                     for b in ast.walk(n):
                         if isinstance(b, ast.Assign) and isinstance(b.targets[0], ast.Subscript) and \
                                 _k(b.targets[0].slice) == _k(n.target) and _k(b.value) in ("'R'", "False") \
@@ -221,6 +222,89 @@ def r10(repo, rep):
                construct=short(dh[0]) if dh else None, detail="" if ok else "default history changed")
 
 
+def _none_normalised(fnode, param):
+    """Names that hold `param`, or an empty collection when `param` is None: Y = () if param is None else param, in
+    either orientation, as a conditional expression or as an if/else that assigns nothing else to Y."""
+    empty = ("()", "[]", "set()", "list()", "tuple()", "{}", "frozenset()")
+    isnone, notnone = "%sisNone" % param, "%sisnotNone" % param
+
+    def arms(test, a, b):          # value when test holds, value otherwise
+        t = _k(test)
+        if t == isnone:
+            return _k(a) in empty and _k(b) == param
+        if t in (notnone, "not(%s)" % isnone, "not%s" % isnone):
+            return _k(b) in empty and _k(a) == param
+        return False
+    stores = {}
+    for n in ast.walk(fnode):
+        if isinstance(n, ast.Name) and isinstance(n.ctx, ast.Store):
+            stores[n.id] = stores.get(n.id, 0) + 1
+    out = set()
+    for n in own_nodes(fnode):
+        if isinstance(n, ast.Assign) and len(n.targets) == 1 and isinstance(n.targets[0], ast.Name) and isinstance(n.value, ast.IfExp):
+            if stores.get(n.targets[0].id) == 1 and arms(n.value.test, n.value.body, n.value.orelse):
+                out.add(n.targets[0].id)
+        if isinstance(n, ast.If) and len(n.body) == 1 and len(n.orelse) == 1:
+            a, b = n.body[0], n.orelse[0]
+            if all(isinstance(x, ast.Assign) and len(x.targets) == 1 and isinstance(x.targets[0], ast.Name) for x in (a, b)) \
+                    and a.targets[0].id == b.targets[0].id and stores.get(a.targets[0].id) == 2 and arms(n.test, a.value, b.value):
+                out.add(a.targets[0].id)
+    return out
+
+
+def initial_record_rule(repo, rep):
+    """Gillespie_SIR / Gillespie_SIS: what is recorded for the initial condition carries the start time."""
+    rep.rule("R10t", "Gillespie_SIR / Gillespie_SIS: the infection / recovery times and the source-less transmissions recorded for the "
+                     "initial condition are stamped tmin (the clock is read before anything advances it)")
+    n = 0
+    for name in ("Gillespie_SIR", "Gillespie_SIS"):
+        f = repo.f(name)
+        rep.analysed(f)
+        clock = {}           # name -> "tmin" while the only thing the variable has been given is tmin
+        for st in f.node.body:
+            if isinstance(st, ast.While):
+                break
+            stores = {x.id for x in ast.walk(st) if isinstance(x, ast.Name) and isinstance(x.ctx, ast.Store)}
+            for c in ast.walk(st):
+                if not (isinstance(c, ast.Call) and isinstance(c.func, ast.Attribute) and c.func.attr == "append" and len(c.args) == 1):
+                    continue
+                root = c.func.value
+                while isinstance(root, (ast.Subscript, ast.Attribute)):
+                    root = root.value
+                if not (isinstance(root, ast.Name) and root.id in ("infection_times", "recovery_times", "transmissions")):
+                    continue
+                e = c.args[0].elts[0] if isinstance(c.args[0], ast.Tuple) and c.args[0].elts else c.args[0]
+                ok = _k(e) == "tmin" or (isinstance(e, ast.Name) and clock.get(e.id) == "tmin" and e.id not in stores)
+                n += 1
+                rep.ob("R10t", ok, "%s: %s record of the initial condition is stamped tmin" % (name, root.id), func=f, node=c,
+                       construct="%s: %s at clock=%s" % (name, short(c), clock.get(_k(e))),
+                       detail="" if ok else "the initial condition is recorded with `%s` after the clock has been advanced (or before it is "
+                       "set): initially infected nodes are reported susceptible until the first event" % _k(e))
+            # the same records built in one go: infection_times = {node: [t] for ...} / defaultdict(list, dict.fromkeys(X, [t])) /
+            # transmissions = [(t, None, node) for node in X]
+            for a in ast.walk(st):
+                if not (isinstance(a, ast.Assign) and len(a.targets) == 1 and isinstance(a.targets[0], ast.Name)
+                        and a.targets[0].id in ("infection_times", "recovery_times", "transmissions")):
+                    continue
+                for z in ast.walk(a.value):
+                    e = None
+                    if a.targets[0].id == "transmissions" and isinstance(z, ast.Tuple) and len(z.elts) == 3 and _k(z.elts[1]) == "None":
+                        e = z.elts[0]
+                    elif a.targets[0].id != "transmissions" and isinstance(z, ast.List) and len(z.elts) == 1:
+                        e = z.elts[0]
+                    if e is None:
+                        continue
+                    ok = _k(e) == "tmin" or (isinstance(e, ast.Name) and clock.get(e.id) == "tmin" and e.id not in stores)
+                    n += 1
+                    rep.ob("R10t", ok, "%s: %s record of the initial condition is stamped tmin" % (name, a.targets[0].id), func=f, node=a,
+                           construct="%s: %s at clock=%s" % (name, short(a), clock.get(_k(e))),
+                           detail="" if ok else "the initial condition is recorded with `%s` after the clock has been advanced" % _k(e))
+            for x in stores:
+                clock[x] = "tmin" if (isinstance(st, ast.Assign) and len(st.targets) == 1 and _k(st.targets[0]) == x
+                                      and _k(st.value) == "tmin" and x not in clock) else "advanced"
+    rep.floor("R10t", "initial-condition records", n, 5)
+
+
 def transform_history_rule(repo, rep):
     """_transform_to_node_history_: histories start at tmin and only make legal moves."""
     f = repo.f("_transform_to_node_history_")
@@ -233,12 +317,15 @@ def transform_history_rule(repo, rep):
            construct="default history x%d" % len(dd), detail="" if ok else "default history changed")
     # each for loop over *.items() in the SIR arm: reset under time == tmin, then append time and the right letter
     nloops = 0
+    sir_sources = set()
     for c in walk_function(f.node):
         st = c.stmt
         if isinstance(st, ast.For) and _k(st.iter).endswith(".items()") and not c.loops:
             nloops += 1
             sir = "SIR" in _fact_set(c)
             src = _k(st.iter).split(".")[0]
+            if sir:
+                sir_sources.add(src)
             node, tvar = [_k(e) for e in st.target.elts]
             body = st.body
             if sir:
@@ -265,6 +352,13 @@ def transform_history_rule(repo, rep):
                     ok = len(pops) == 2 and len(allpops) == 2 and letters == ["'I'", "'S'"] and len(reset) == 1
                 rep.ob("HIST", ok, "SIS: infection and recovery times are consumed alternately from the front (oldest first) as I, S; an infection at tmin replaces the default",
                        func=f, node=st, construct="SIS loop", detail="" if ok else "SIS history reconstruction changed")
+    # every recorded infection AND every recorded recovery reaches the history: each table is walked by its own
+    # loop (an initially recovered node has a recovery time and no infection time)
+    missing = sorted({"infection_times", "recovery_times"} - sir_sources)
+    rep.ob("HIST", not missing, "SIR: every entry of infection_times and of recovery_times is turned into a history entry",
+           func=f, node=f.node, construct="SIR tables walked: %s" % ",".join(sorted(sir_sources)),
+           detail="" if not missing else "no loop over all of %s in the SIR arm: nodes that only occur there "
+           "(initially recovered nodes) lose their history" % ", ".join(missing))
     rep.floor("HIST", "reconstruction loops", nloops, 3)
 
 
@@ -287,9 +381,26 @@ def r14(repo, rep):
             dur = [s for s in st.body if isinstance(s, ast.Assign) and isinstance(s.value, ast.Call) and _k(s.value.func) == "rec_time_fxn"]
             okd = len(dur) == 1 and _k(dur[0].value.args[0]) == u and isinstance(dur[0].value.args[-1], ast.Starred) \
                 and _k(dur[0].value.args[-1].value) == "rec_time_args"
-            addn = [s for s in st.body if isinstance(s, ast.Expr) and isinstance(s.value, ast.Call) and _k(s.value.func) == "H.add_node"
-                    and _k(s.value.args[0]) == u]
-            okn = len(addn) == 1
+            def is_call(s, fn, first):
+                return isinstance(s, ast.Expr) and isinstance(s.value, ast.Call) and _k(s.value.func) == fn and s.value.args \
+                    and [_k(a) for a in s.value.args[:len(first)]] == first
+
+            def on_weights(block, fn, first):
+                """[stmt] for `fn(first...)` at the top of block, or [with-attributes, without] for a two-armed test on
+                `weights` alone with one such call in each arm."""
+                direct = [s for s in block if is_call(s, fn, first)]
+                split = [s for s in block if isinstance(s, ast.If) and names_in(s.test) == {"weights"} and _k(s.test) in ("weights", "notweights", "not(weights)")
+                         and len(s.body) == 1 and len(s.orelse) == 1 and is_call(s.body[0], fn, first) and is_call(s.orelse[0], fn, first)]
+                if len(direct) == 1 and not split:
+                    return direct
+                if len(split) == 1 and not direct:
+                    a, b = split[0].body[0], split[0].orelse[0]
+                    return [a, b] if _k(split[0].test) == "weights" else [b, a]
+                return []
+            addn = on_weights(st.body, "H.add_node", [u])
+            okn = len(addn) in (1, 2) and (len(addn) == 1 or not addn[1].value.keywords)
+            if len(addn) == 2:
+                weighted = True        # the arm with attributes is checked below; the other arm carries none
             rep.ob("R14", okn, "with_timing (%s): every node of G is added unconditionally" % ("weights" if weighted else "no weights"),
                    func=f, node=addn[0] if addn else st, construct="H.add_node(%s) at loop top level: %d" % (u, len(addn)),
                    detail="" if okn else "H.add_node(u) is missing or conditional: nodes without kept edges vanish from H")
@@ -308,11 +419,11 @@ def r14(repo, rep):
                     dn, un = _k(dl[0].targets[0]), _k(dur[0].targets[0])
                     ifs = [s for s in nl[0].body if isinstance(s, ast.If) and _k(s.test) in ("%s<=%s" % (dn, un), "%s>=%s" % (un, dn))]
                     adds = [x for x in ast.walk(nl[0]) if isinstance(x, ast.Call) and _k(x.func) == "H.add_edge"]
-                    if len(ifs) == 1 and len(adds) == 1 and any(x is adds[0] for x in ast.walk(ifs[0])) and not ifs[0].orelse \
-                            and [_k(a) for a in adds[0].args[:2]] == [u, v]:
+                    kept = on_weights(ifs[0].body, "H.add_edge", [u, v]) if len(ifs) == 1 and not ifs[0].orelse else []
+                    if kept and len(adds) == len(kept) and (len(kept) == 1 or (len(addn) == 2 and not kept[1].value.keywords)):
                         oke = True
                         if weighted:
-                            kw = {k.arg: _k(k.value) for k in adds[0].keywords}
+                            kw = {k.arg: _k(k.value) for k in kept[0].value.keywords}
                             oke = kw.get("delay_to_infection") == dn
             rep.ob("R14", oke, "with_timing (%s): edge u->v kept iff delay(u,v) <= duration(u)" % ("weights" if weighted else "no weights"),
                    func=f, node=st, construct="with_timing %s edge rule: %s" % ("weights" if weighted else "no weights", oke),
@@ -621,12 +732,35 @@ def r15(repo, rep):
     f = repo.f("get_Pnk")
     rep.analysed(f)
     ok = False
-    for c in walk_function(f.node):
+    # a degree map read once (D = dict(G.degree())) stands for the calls it replaces: D[x] is G.degree(x)
+    dmaps = {_k(s.targets[0]) for s in f.node.body if isinstance(s, ast.Assign) and len(s.targets) == 1
+             and isinstance(s.targets[0], ast.Name) and _k(s.value) == "dict(G.degree())"}
+    stores = [x.id for x in ast.walk(f.node) if isinstance(x, ast.Name) and isinstance(x.ctx, ast.Store)]
+    dmaps = {d for d in dmaps if stores.count(d) == 1}
+    if dmaps:
+        import copy
+
+        class _D(ast.NodeTransformer):
+            def visit_Subscript(self, n):
+                self.generic_visit(n)
+                if isinstance(n.value, ast.Call) and _k(n.value) == "dict(G.degree())" and isinstance(n.ctx, ast.Load):
+                    return ast.copy_location(ast.parse("G.degree(%s)" % ast.unparse(n.slice), mode="eval").body, n)
+                return n
+
+            def visit_Name(self, n):
+                if n.id in dmaps and isinstance(n.ctx, ast.Load):
+                    return ast.copy_location(ast.parse("dict(G.degree())", mode="eval").body, n)
+                return n
+        g = ast.fix_missing_locations(_D().visit(copy.deepcopy(f.node)))
+        fnode = g
+    else:
+        fnode = f.node
+    for c in walk_function(fnode):
         st = c.stmt
         if isinstance(st, ast.AugAssign) and _k(st.target) == "Pnk[k1][k2]" and isinstance(st.op, ast.Add) and \
                 _k(st.value) in ("1.0/(k1*Nk[k1])", "1/(k1*Nk[k1])", "1./(k1*Nk[k1])"):
             ok = len(c.loops) == 2
-    env = {_k(s.targets[0]): _k(s.value) for s in ast.walk(f.node) if isinstance(s, ast.Assign)}
+    env = {_k(s.targets[0]): _k(s.value) for s in ast.walk(fnode) if isinstance(s, ast.Assign)}
     ok = ok and env.get("k1") == "G.degree(node)" and env.get("nbr_degrees") == "[G.degree(nbr)fornbrinG.neighbors(node)]" \
         and env.get("Nk") == "Counter(dict(G.degree()).values())"
     rep.ob("R15", ok, "get_Pnk: each neighbour of each degree-k1 node adds 1/(k1*N_k1) to row k1 (rows sum to 1)", func=f, node=f.node,
@@ -836,6 +970,19 @@ def investigation_rule(repo, rep):
     ok = ok and "ifuisnotNone" in t and "T.add_edge(u,v,time=t)" in t
     rep.ob("INV", ok, "transmission_tree: one edge source->target per sourced record", func=tt, node=tt.node, construct="transmission_tree body",
            detail="" if ok else "tree construction changed")
+    # the graph handed out is built in the call: callers (hierarchy_pos users add an artificial root) may change it
+    # without changing what the next call returns
+    fresh = {_k(n.targets[0]) for n in own_nodes(tt.node) if isinstance(n, ast.Assign) and len(n.targets) == 1
+             and isinstance(n.targets[0], ast.Name) and isinstance(n.value, ast.Call) and _k(n.value.func).endswith("DiGraph")}
+    rets = [_k(n.value) for n in own_nodes(tt.node) if isinstance(n, ast.Return)]
+    stores = sorted({_k(x) for n in own_nodes(tt.node) if isinstance(n, (ast.Assign, ast.AugAssign, ast.AnnAssign))
+                     for tg in (n.targets if isinstance(n, ast.Assign) else [n.target]) for x in ast.walk(tg)
+                     if isinstance(x, ast.Attribute) and isinstance(x.ctx, ast.Store) and _k(x.value) == "self"})
+    okf = bool(rets) and all(r in fresh for r in rets) and not stores
+    rep.ob("INV", okf, "transmission_tree: every call returns a graph built in that call (no shared object)", func=tt, node=tt.node,
+           construct="transmission_tree returns %s fresh=%s stores=%s" % (rets, sorted(fresh), stores),
+           detail="" if okf else "transmission_tree returns %s and stores %s on the object: the graph handed to one caller is "
+           "the graph the next caller gets" % (rets, stores))
 
 
 def full_data_handoff(repo, rep):
